@@ -174,6 +174,35 @@ var serverNames = []string{
 	strings.Repeat("l", 63) + ".example",
 }
 
+var (
+	sniTableOnce sync.Once
+	sniTbl       route.Table
+	sniRouteFor  = map[string]string{}
+)
+
+// sniTable has one tcp route per (lower-cased) server name of the generator.
+func sniTable() route.Table {
+	sniTableOnce.Do(func() {
+		var b strings.Builder
+		i := 0
+		for _, n := range serverNames {
+			l := strings.ToLower(n)
+			if _, ok := sniRouteFor[l]; ok {
+				continue
+			}
+			i++
+			sniRouteFor[l] = fmt.Sprintf("10.0.0.%d:443", i)
+			fmt.Fprintf(&b, "route add s%d %s/ tcp://%s\n", i, l, sniRouteFor[l])
+		}
+		tbl, err := route.NewTable(bytes.NewBufferString(b.String()))
+		if err != nil {
+			panic(err)
+		}
+		sniTbl = tbl
+	})
+	return sniTbl
+}
+
 var ipNames = []string{"127.0.0.1", "::1", "[::1]", "10.1.2.3", ""}
 
 var allSuites = func() []uint16 {
@@ -776,6 +805,18 @@ func TestC10ThroughSNIProxy(t *testing.T) {
 			}
 		} else if len(got) != 1 || got[0] != want {
 			t.Fatalf("proxy routed on %q, crypto/tls sees server name %q\n%s", got, want, ctx)
+		}
+		// ... and the name is what the routing table is asked with (main.go: LookupHost with the
+		// configured picker): host names are matched whatever their letter case
+		if want != "" {
+			tg := sniTable().LookupHost(got[0], route.Picker["rr"])
+			wantDst := sniRouteFor[strings.ToLower(want)]
+			if tg == nil || tg.URL.Host != wantDst {
+				t.Fatalf("server name %q (route %s/ -> %s exists): the routing table answers %v\n%s", want, strings.ToLower(want), wantDst, tg, ctx)
+			}
+			if want != strings.ToLower(want) {
+				hx.Class("through-proxy:mixed-case-name-routed")
+			}
 		}
 		if len(rec) > 4096 {
 			hx.Class("through-proxy:hello>4KiB")
